@@ -14,7 +14,7 @@ import z3
 
 from . import cfgsmt, lexer, lexsmt
 from .common import EncodingError
-from .extract import display_templates
+from .extract import display_templates, value_display
 
 # levels of the source grammar on the unit chain, tightest first: discovered from the grammar (see unit_chain)
 PH = "PH"
@@ -29,6 +29,71 @@ LEAF_SHAPES = {
     "False": ("T:false", r"false"),
     "NoneLit": ("T:none", r"none"),
 }
+
+
+def string_images(reps):
+    """Per-character image under a chain of single-character replacements: {char: rendered text}."""
+    img = {}
+    for p, _ in reps:
+        t = p
+        for x, y in reps:
+            t = t.replace(x, y)
+        img[p] = t
+    return img
+
+
+def install_leaf_shapes(vd):
+    """Rendering shapes of literal leaves = literal prefix/suffix read from `impl Display for Value` + the payload shapes of
+    core::fmt / rust_decimal (trusted) / the replacement chain for strings."""
+    e = re.escape
+    LEAF_SHAPES["Int"] = ("C:INT", e(vd["Int"]["prefix"]) + r"-?[0-9]+" + e(vd["Int"]["suffix"]))
+    LEAF_SHAPES["Float"] = ("C:FLOAT", e(vd["Float"]["prefix"]) + r"(?:-?[0-9]+(\.[0-9]+)?|inf|-inf)" + e(vd["Float"]["suffix"]))
+    LEAF_SHAPES["Decimal"] = ("C:DECIMAL", e(vd["Decimal"]["prefix"]) + r"-?[0-9]+(\.[0-9]+)?" + e(vd["Decimal"]["suffix"]))
+    LEAF_SHAPES["True"] = ("T:true", e(vd["Bool"]["prefix"] + "true" + vd["Bool"]["suffix"]))
+    LEAF_SHAPES["False"] = ("T:false", e(vd["Bool"]["prefix"] + "false" + vd["Bool"]["suffix"]))
+    LEAF_SHAPES["NoneLit"] = ("T:none", e(vd["None"]["prefix"] + vd["None"]["suffix"]))
+    img = string_images(vd["String"]["replaces"])
+    dom = "".join(e(c) if c not in "]^\\-" else "\\" + c for c in img)
+    plain = f"[^{dom}]" if img else r"(?:.|\n)"
+    alts = "|".join([plain] + [e(t) for t in img.values()])
+    LEAF_SHAPES["String"] = ("C:STRING", e(vd["String"]["prefix"]) + f"(?:{alts})*" + e(vd["String"]["suffix"]))
+
+
+REF_ESCAPES = {"n": "\n", "r": "\r", "t": "\t", "\\": "\\", "'": "'", '"': '"'}
+
+
+def check_string_decoding(run, pr):
+    """z3 over every code point c: the rendering of the one-character string c (as the replacement chain extracted from the
+    source renders it) decodes, by the reference escape table of C08, to c again."""
+    t0 = time.time()
+    vd = pr.vdisp["String"]
+    img = string_images(vd["replaces"])
+    c = z3.Int("c")
+    s = z3.Solver()
+    s.add(c >= 0, c < 0x110000, z3.Not(z3.And(c >= 0xD800, c <= 0xDFFF)))
+    bad = []
+    default_bad = z3.And(z3.And([c != ord(p) for p in img]) if img else z3.BoolVal(True), z3.Or(c == 34, c == 92))
+    bad.append(default_bad)
+    for p, t in img.items():
+        if len(t) == 1:
+            ok = t == p and t not in ('"', "\\")
+        elif len(t) == 2 and t[0] == "\\":
+            ok = REF_ESCAPES.get(t[1]) == p
+        else:
+            ok = False
+        if not ok:
+            bad.append(c == ord(p))
+    if vd["prefix"] != '"' or vd["suffix"] != '"':
+        bad.append(z3.BoolVal(True))
+    s.add(z3.Or(bad))
+    r = s.check()
+    run.solver_time_s += time.time() - t0
+    wit = None
+    if r == z3.sat:
+        wit = chr(s.model().eval(c, model_completion=True).as_long())
+    run.obligation("leaf:String:decoding", "z3-query", "fail" if wit is not None else "pass", time.time() - t0,
+                   bounds={"code_points": "every Unicode scalar value", "replacement_chain": vd["replaces"]}, witnesses=[wit] if wit else [])
+    return wit
 
 
 def unit_chain(g, start="Expr"):
@@ -87,6 +152,8 @@ class Printer:
         self.templates, self.helpers = display_templates(src)
         self.fields = enum_fields(src)
         self.lx = lexer.from_grammar(syn.g)
+        self.vdisp = value_display(run.read("src/value/mod.rs"))
+        install_leaf_shapes(self.vdisp)
         self.chain = unit_chain(syn.g)           # loosest .. tightest (Term)
         self.levels = list(reversed(self.chain))  # tightest first
 
@@ -528,6 +595,15 @@ def _leaf_task(leaf):
 
 def check_leaves(run, pr, syn, helper, n_max):
     """(ii) every rendering shape of a literal is one token of the intended class."""
+    wit = check_string_decoding(run, pr)
+    if wit is not None:
+        src = '"' + {'"': '\\"', "\\": "\\\\"}.get(wit, wit) + '"'
+        res = helper.call("roundtrip", [src])[0]
+        if res.startswith("DIFF") or res.startswith("PANIC"):
+            run.finding(f"leaf:String:char-{ord(wit):x}", "reparses-to-different-tree", f"string literal {src!r}: {res[:200]}",
+                        {"kind": "roundtrip", "text": src, "result": res})
+        else:
+            run.inconc("leaf:String:decoding", f"solver witness {wit!r} does not reproduce ({res[:80]})", mandatory=True)
     _G["leafctx"] = (pr, syn, n_max)
     for leaf, found, dt in pool_map(_leaf_task, list(LEAF_SHAPES)):
         run.solver_time_s += dt
